@@ -35,6 +35,8 @@ type tcase struct {
 	Schedule string
 	Every    time.Duration // trickle interval
 	Routes   string
+	// FloodSizes: sizes of the datagrams a flooding UDP client sends, cyclically
+	FloodSizes []int
 	// InnerTimeout: matching timeout of the nested subroute (Routes == "subroute")
 	InnerTimeout time.Duration
 	ErrAfter     int
@@ -45,7 +47,7 @@ func (tc tcase) String() string {
 	if tc.UDP {
 		tr = "udp"
 	}
-	return fmt.Sprintf("%s timeout=%v phase=.%d schedule=%s/%v routes=%s inner=%v errAfter=%d", tr, tc.Timeout, tc.Phase, tc.Schedule, tc.Every, tc.Routes, tc.InnerTimeout, tc.ErrAfter)
+	return fmt.Sprintf("%s timeout=%v phase=.%d schedule=%s/%v routes=%s inner=%v errAfter=%d floodSizes=%v", tr, tc.Timeout, tc.Phase, tc.Schedule, tc.Every, tc.Routes, tc.InnerTimeout, tc.ErrAfter, tc.FloodSizes)
 }
 
 var never = rx.M("verif_need", &rx.Need{N: 1 << 20, Pos: 0, Val: 1})
@@ -114,6 +116,16 @@ func genCase(t *rapid.T, thorough bool) tcase {
 	tc.Every = time.Duration(rapid.IntRange(2, 40).Draw(t, "everyMs")) * time.Millisecond
 	kinds := []string{"never", "never-peek", "no+never", "http", "err", "err0+next", "subroute", "match-then-slow", "nonterminal-then-never", "subroute-fallthrough-then-slow", "consume-then-never", "never-or-no"}
 	tc.Routes = kinds[rapid.IntRange(0, len(kinds)-1).Draw(t, "routes")]
+	if tc.UDP && tc.Schedule != "flood" && rapid.IntRange(0, 3).Draw(t, "udpFlood") == 0 {
+		tc.Schedule = "flood"
+	}
+	if tc.UDP && tc.Schedule == "flood" {
+		tc.FloodSizes = rapid.SliceOfN(rapid.SampledFrom([]int{100, 1500, 2048, 2049, 5000, 9000}), 1, 3).Draw(t, "floodSizes")
+		if rapid.Bool().Draw(t, "jumboAfterSmall") {
+			// a partly filled buffer, then the largest datagram there is
+			tc.FloodSizes = []int{rapid.SampledFrom([]int{100, 1500, 2049, 5000, 7000}).Draw(t, "smallFirst"), 9000}
+		}
+	}
 	tc.InnerTimeout = time.Duration(rapid.IntRange(150, maxT).Draw(t, "innerMs")) * time.Millisecond
 	tc.ErrAfter = rapid.IntRange(0, 40).Draw(t, "errAfter")
 	if tc.Routes == "match-then-slow" || tc.Routes == "subroute-fallthrough-then-slow" {
@@ -204,7 +216,7 @@ func runCase(tc tcase) outcome {
 		fpc := hx.NewFakePacketConn()
 		vpc := layer4.VerifNewPacketConn(fpc, &net.UDPAddr{IP: net.IPv4(10, 0, 0, 9), Port: 7777})
 		h := rl.Compile(zap.NewNop(), tc.Timeout, rx.Fallback{})
-		cx := layer4.WrapConnection(vpc, make([]byte, 0, 2048), zap.NewNop())
+		cx := layer4.WrapConnection(vpc.Real(), make([]byte, 0, 2048), zap.NewNop())
 		rx.Bind(cx, tr)
 		sleepToPhase(tc.Phase)
 		feeder.Add(1)
@@ -290,7 +302,11 @@ func feedSchedule(tc tcase, stop chan struct{}, feed func([]byte), payload func(
 				return
 			default:
 			}
-			feed([]byte(strings.Repeat("f", 1500)))
+			n := 1500
+			if len(tc.FloodSizes) > 0 {
+				n = tc.FloodSizes[i%len(tc.FloodSizes)] // UDP: datagrams of several sizes, up to the largest the socket reader takes
+			}
+			feed([]byte(strings.Repeat("f", n)))
 		}
 	case "match-then-late":
 		feed([]byte("x"))
